@@ -637,7 +637,8 @@ class W(cohdl.Entity):
 """
 
 E2E_OPS = ["add", "sub", "mul", "lshift", "rshift", "and", "or", "xor", "concat", "eq", "lt", "ge",
-           "mod", "rem", "truncdiv", "floordiv", "add", "sub", "mod", "lt"]
+           "mod", "rem", "truncdiv", "floordiv", "add", "sub", "mod", "lt", "ne", "le", "gt"]
+E2E_CMP = ("eq", "ne", "lt", "le", "gt", "ge")
 E2E_DIV = ("mod", "rem", "truncdiv", "floordiv")
 
 
@@ -666,20 +667,31 @@ def vhdl_val(d):
 
 def e2e_cases(rng, n):
     out = []
+    # grid: every comparison of an Unsigned with a NEGATIVE Python int, in both operand orders (the back end folds these
+    # comparisons itself because numeric_std only compares unsigned with NATURAL), and with ints just outside the range
+    for op in E2E_CMP:
+        for wa, v in ((1, 1), (3, 0), (3, 5)):
+            for lit in (-1, -(1 << wa), (1 << wa)):
+                out.append([op, ["u", wa, v], ["py", lit]])
+                out.append([op, ["py", lit], ["u", wa, v]])
+        for lit in (-5, 4):
+            out.append([op, ["s", 3, -4], ["py", lit]])
+            out.append([op, ["py", lit], ["s", 3, 3]])
+    n += len(out)
     tries = 0
     while len(out) < n and tries < 50 * n:
         tries += 1
         op = E2E_OPS[len(out) % len(E2E_OPS)]
-        kind = rng.choice(["u", "s"]) if op not in ("and", "or", "xor", "concat", "eq") else rng.choice(["u", "s", "bv"])
+        kind = rng.choice(["u", "s"]) if op not in ("and", "or", "xor", "concat", "eq", "ne") else rng.choice(["u", "s", "bv"])
         wa = rng.choice([1, 2, 3, 4, 5, 8, 13])
-        wb = rng.choice([wa, wa, rng.choice([1, 2, 3, 4, 5, 8])]) if op not in ("and", "or", "xor", "eq") else wa
-        if op in ("lt", "ge") and kind == "bv":
+        wb = rng.choice([wa, wa, rng.choice([1, 2, 3, 4, 5, 8])]) if op not in ("and", "or", "xor", "eq", "ne") else wa
+        if op in ("lt", "ge", "le", "gt") and kind == "bv":
             continue
         a = [kind, wa, vec_value(rng, kind, wa)]
         if op == "floordiv" and kind == "s":
             kind = "u"
             a = [kind, wa, vec_value(rng, kind, wa)]
-        if op in E2E_DIV + ("add", "sub", "lt", "ge", "eq") and kind != "bv" and rng.random() < 0.5:
+        if op in E2E_DIV + ("add", "sub") + E2E_CMP and kind != "bv" and rng.random() < 0.5:
             # vector (op) Python int, either order; the int is inside the vector's range (and not 0 as a divisor)
             lo, hi = (0, (1 << wa) - 1) if kind == "u" else (-(1 << (wa - 1)), (1 << (wa - 1)) - 1)
             lit = rng.randint(lo, hi)
